@@ -980,6 +980,51 @@ static inline void bg_queue_u__pop(bg_queue_u *q) {
 static inline void bg_preds__ctor_2(bg_preds *p, const bg_vec_sz *a, const bg_vec_u *b) { p->first = *a; p->second = *b; }
 static inline void bg_mpreds__ctor_2(bg_mpreds *p, const bg_vec_sz *a, const bg_adj *b) { p->first = *a; p->second = *b; }
 
+/* --------------------------------------------- std::list<Edge> as constructor argument (read-only) */
+static inline void bg__eseq_arrive(bg_edgeseq_it *it) {
+  if (BG_ESEQ_LEFT(*it) > 0) {
+    int k = nondet_int();
+    BG_ASSUME(k >= 0 && k <= 2 && (k != 0 || it->remPQ > 0) && (k != 1 || it->remQP > 0) && (k != 2 || it->remOther > 0));
+    if (k == 0) { it->cur.first = G_P; it->cur.second = G_Q; }
+    else if (k == 1) { it->cur.first = G_Q; it->cur.second = G_P; }
+    else {
+      VertexIndex a = nondet_vertex(), b = nondet_vertex();
+      BG_ASSUME(!(a == G_P && b == G_Q) && !(a == G_Q && b == G_P) && (bg_size)a < it->bound && (bg_size)b < it->bound);
+      it->cur.first = a; it->cur.second = b;
+    }
+  }
+}
+static inline bg_edgeseq_it bg_edgeseq__begin(const bg_edgeseq *s) {
+  bg_edgeseq_it it;
+  it.remPQ = s->nPQ; it.remQP = s->nQP; it.remOther = s->nOther; it.bound = s->bound;
+  it.cur.first = it.cur.second = 0;
+  bg__eseq_arrive(&it);
+  return it;
+}
+static inline bg_edgeseq_it bg_edgeseq__end(const bg_edgeseq *s) {
+  bg_edgeseq_it it;
+  it.remPQ = it.remQP = it.remOther = 0; it.bound = s->bound; it.cur.first = it.cur.second = 0;
+  return it;
+}
+static inline bg_bool bg_edgeseq_it__eq(bg_edgeseq_it a, bg_edgeseq_it b) {
+  __CPROVER_assert(BG_ESEQ_LEFT(a) == 0 || BG_ESEQ_LEFT(b) == 0, "ABSTRACTION list<Edge> iterators are only compared with end()");
+  return BG_ESEQ_LEFT(a) == BG_ESEQ_LEFT(b);
+}
+static inline bg_bool bg_edgeseq_it__ne(bg_edgeseq_it a, bg_edgeseq_it b) { return !bg_edgeseq_it__eq(a, b); }
+static inline const bg_edge *bg_edgeseq_it__deref(const bg_edgeseq_it *it) {
+  BG_PRE(BG_ESEQ_LEFT(*it) > 0, "dereference end() list<Edge> iterator");
+  return &it->cur;
+}
+static inline bg_edgeseq_it *bg_edgeseq_it__preinc(bg_edgeseq_it *it) {
+  BG_PRE(BG_ESEQ_LEFT(*it) > 0, "increment end() list<Edge> iterator");
+  if (it->cur.first == G_P && it->cur.second == G_Q) it->remPQ--;
+  else if (it->cur.first == G_Q && it->cur.second == G_P) it->remQP--;
+  else it->remOther--;
+  bg__eseq_arrive(it);
+  return it;
+}
+static inline const VertexIndex *bg_max_u(const VertexIndex *a, const VertexIndex *b) { return *a < *b ? b : a; }
+
 /* --------------------------------------------- std::unordered_set<VertexIndex> (read-only use) */
 /* the element under the cursor: any of the classes still ahead */
 static inline void bg__uset_arrive(bg_uset_it *it) {
